@@ -543,6 +543,12 @@ def _cshape(shape):
     return tuple(int(w(d)) for d in shape)
 
 
+def _dt(dtype):
+    """the names int / float / bool are re-bound to shims in the shadow modules; numpy has to see the real types"""
+    from . import loader
+    return {getattr(loader, 'symint', None): int, getattr(loader, 'symfloat', None): float}.get(dtype, dtype) if callable(dtype) else dtype
+
+
 class _NPX(object):
     """Proxy for the numpy module inside shadow chi modules.  Falls back to the real
     numpy for everything not overridden."""
@@ -559,7 +565,25 @@ class _NPX(object):
     newaxis = None
 
     def __getattr__(self, name):
-        return getattr(_np, name)
+        f = getattr(_np, name)
+        if callable(f) and not isinstance(f, type):
+            def g(*a, **k):
+                if 'dtype' in k:
+                    k['dtype'] = _dt(k['dtype'])
+                return f(*a, **k)
+            g.__name__ = name
+            return g
+        return f
+
+    def __getattribute__(self, name):
+        m = object.__getattribute__(self, name)
+        if not name.startswith('_') and callable(m) and not isinstance(m, type) and type(m).__name__ == 'method':
+            def g(*a, **k):
+                if 'dtype' in k:
+                    k['dtype'] = _dt(k['dtype'])
+                return m(*a, **k)
+            return g
+        return m
 
     # -- construction
     def asarray(self, x, dtype=None, **kw):
